@@ -35,10 +35,23 @@ RULE = ("(a) Hypothesis token soup from an iCalendar dictionary (BEGIN:/END: wit
         "must serialise. Non-trivial: input that "
         "gets past the BEGIN of one component; distinct by hash of the input.")
 ASSUMPTIONS = ["inputs <= 8 KiB, nesting <= 64", "a CPU-time bound stands for 'terminates'"]
-REQUIRED_CLASSES = ["gen:soup", "gen:fixture", "gen:hostile", "gen:isolate", "isolate:unparsable-line", "isolate:parsable-line", "hostile:tzid", "hostile:vtimezone", "hostile:extreme", "config:python-O"]
+REQUIRED_CLASSES = ["gen:soup", "gen:fixture", "gen:hostile", "gen:isolate", "isolate:unparsable-line", "isolate:parsable-line", "hostile:tzid", "hostile:vtimezone", "hostile:extreme", "hostile:repetition", "config:python-O"]
 
 SHRINK_STRINGS = True
 TIMEOUT_S = 10.0
+
+
+_REP_WHERE = {"between-lines", "value", "param-value", "quoted-param-value", "name", "param-name", "typed-value", "before-begin", "after-end"}
+
+
+def _rep_lines(rep):
+    if rep["where"] not in _REP_WHERE or not 0 <= rep["k"] <= 100000:
+        raise ValueError("malformed case: repetition")
+    run, where = rep["tok"] * rep["k"], rep["where"]
+    body = {"between-lines": ["SUMMARY:a" + run + "DESCRIPTION:b"], "value": ["SUMMARY:" + run], "param-value": ["SUMMARY;X-P=" + run + ":v"],
+            "quoted-param-value": ['SUMMARY;X-P="' + run.replace('"', "'") + '":v'], "name": [run + ":v"], "param-name": ["SUMMARY;" + run + "=1:v"],
+            "typed-value": [rep["typed"] + ":" + run], "before-begin": [], "after-end": []}[where]
+    return ([run] if where == "before-begin" else []) + ["BEGIN:VCALENDAR", "BEGIN:VEVENT"] + body + ["END:VEVENT", "END:VCALENDAR"] + ([run] if where == "after-end" else [])
 
 
 def the_input(case):
@@ -54,7 +67,8 @@ def the_input(case):
             text = text[: max(0, len(text) - case["truncate"])]
         return text.encode("utf-8", "replace")
     if g == "hostile":
-        return "\r\n".join(case["lines"]).encode("utf-8", "replace") + b"\r\n"
+        lines = _rep_lines(case["rep"]) if "rep" in case else case["lines"]
+        return "\r\n".join(lines).encode("utf-8", "replace") + b"\r\n"
     if g == "raw":
         import base64
         return base64.b64decode(case["b64"])
@@ -342,7 +356,16 @@ HOSTILE_TZIDS = ["Europe", "..", "../../etc/passwd", "/etc/localtime", "/", "", 
 
 @st.composite
 def hostile_cases(draw, only=None):
-    what = draw(st.sampled_from(only or ["tzid", "vtimezone", "vtimezone", "period", "nesting", "extreme", "extreme", "vtimezone-edge"]))
+    what = draw(st.sampled_from(only or ["tzid", "vtimezone", "vtimezone", "period", "nesting", "extreme", "extreme", "vtimezone-edge", "repetition"]))
+    if what == "repetition":
+        # algorithmic complexity: one short token repeated thousands of times in every syntactic position (a parser that is
+        # quadratic in such a run needs more than the 10 CPU-second bound for a few tens of kilobytes)
+        tok = draw(st.sampled_from(["\n", "\r\n", "\r", " ", "\t", "\n ", "\r\n\t", ";", ":", ",", "=", '"', "\\", "\\,", "\\n", "a", "a=", ";a=b", ",a", '"a",', "%2C", "^n", "\u00e9", "\U0001F600",
+                                    "BEGIN:X\r\n", "END:X\r\n", "X:\r\n", "-", "0", "P", "T", "Z", "/", "1W", "FREQ=DAILY;", "MO,", "1,"]))
+        k = draw(st.sampled_from([2000, 20000, 40000, 60000]))
+        where = draw(st.sampled_from(sorted(_REP_WHERE)))
+        typed = draw(st.sampled_from(["DTSTART", "DURATION", "RRULE", "RDATE", "EXDATE", "FREEBUSY", "GEO", "TRIGGER", "CATEGORIES", "ATTACH;ENCODING=BASE64;VALUE=BINARY", "TZOFFSETFROM", "SEQUENCE"]))
+        return {"gen": "hostile", "what": "repetition", "rep": {"tok": tok, "k": k, "where": where, "typed": typed}}
     if what == "vtimezone-edge":
         # complete, well-formed definitions whose fields sit at the ends of their ranges (the definition is *interpreted*)
         obs = []
